@@ -281,6 +281,21 @@ impl<'a, T: Read + Write + Seek> PointCloudWriter<'a, T> {
         let contains = |n: RecordName| prototype.iter().any(|p| p.name == n);
         let get = |n: RecordName| prototype.iter().find(|p| p.name == n);
 
+        // Integer ranges must not be empty
+        for record in prototype {
+            match record.data_type {
+                RecordDataType::Integer { min, max }
+                | RecordDataType::ScaledInteger { min, max, .. }
+                    if max < min =>
+                {
+                    Error::invalid(format!(
+                        "Maximum value '{max}' is smaller than minimum value '{min}'"
+                    ))?
+                }
+                _ => {}
+            }
+        }
+
         // Cartesian or spherical?
         validate_cartesian(prototype)?;
         validate_spherical(prototype)?;
